@@ -27,7 +27,7 @@ def gen_world(rng):
     dirs = ["", "a", "a/b", "c", "d/e/f"]
     files = []
     names = set()
-    for i in range(rng.randint(1, 7)):
+    for i in range(rng.randint(1, 7) if fmt != "zips" else rng.randint(2, 9)):
         d = rng.choice(dirs)
         name = f"f{i}.{rng.choice(['txt', 'bin', 'JPEG'])}"
         p = f"{d}/{name}" if d else name
@@ -39,7 +39,7 @@ def gen_world(rng):
     w = dict(fn=fn, fmt=fmt, relative=rng.choice([None, "ds", "sub/ds"]), num_workers=rng.choice([0, 0, 1, 2, 3]),
              dst_initial=rng.choice(["absent", "absent", "absent", "parent", "empty", "content"]), files=files,
              empty_dirs=(["emp"] if fmt == "raw" and rng.random() < 0.3 else []),
-             n_zips=rng.randint(1, 4), readme=rng.random() < 0.4)
+             n_zips=rng.randint(1, 4) if fmt != "zips" else rng.randint(1, 6), readme=rng.random() < 0.4)
     return w
 
 
